@@ -23,6 +23,7 @@ type Stream struct {
 	cursor                int64
 	filledBuffer          bool
 	allRead               bool
+	readErr               error
 	UseNumber             bool
 	DisallowUnknownFields bool
 	Option                *Option
@@ -227,9 +228,15 @@ func (s *Stream) read() bool {
 	if err == io.EOF {
 		s.allRead = true
 	} else if err != nil {
+		s.readErr = err
 		return false
 	}
 	return true
+}
+
+// ReadErr returns the error, other than io.EOF, with which the reader stopped.
+func (s *Stream) ReadErr() error {
+	return s.readErr
 }
 
 func (s *Stream) skipWhiteSpace() byte {
